@@ -233,7 +233,7 @@ def cases(tier):
     cs += [Case("InterconnectShared(2x2,timeout=4)", c_wb_shared_timeout, 2, 2, 4), Case("InterconnectShared(2x3,timeout=3,register)", c_wb_shared_timeout, 2, 3, 3, True)]
     cs.append(Case("p2p", c_p2p))
     cs += [Case(f"SoCBusHandler.map({sc})", c_handler_map, sc) for sc in ("alloc", "explicit", "mixed")]
-    cs += [Case(f"decoder(dw={dw},{ok})", c_decoder_window, [2, 3, 12, 16, 31] if tier == "quick" else list(range(2, 32)), dw, ok) for dw in (32, 64) for ok in ("zero", "mid", "top")]
+    cs += [Case(f"decoder(dw={dw},{ok})", c_decoder_window, list(range(2, 33)), dw, ok) for dw in (32, 64) for ok in ("zero", "mid", "top")]
     return cs
 
 ASSUMPTIONS = ["masters x slaves grid 1..3 x 1..3 (quick: 5 shapes), three region sets incl. adjacent and non power-of-two sized windows, 30-bit word addresses",
